@@ -2396,6 +2396,11 @@ pub struct FreezeEnv {
     // if true, just static pass to warn about issues that are easy to detect;
     // if false, actually freeze
     pub warn: bool,
+
+    // names being declared whose right-hand side is still being frozen: the right-hand side runs
+    // before they exist, so there (outside nested lambdas, which run later) they mean the outer
+    // variables of the same names
+    pub pending: HashSet<String>,
 }
 
 impl FreezeEnv {
@@ -2410,7 +2415,14 @@ impl FreezeEnv {
                 eprintln!("\x1b[0m");
             }
         }
+        for id in &ids {
+            self.pending.remove(id);
+        }
         self.bound.extend(ids);
+    }
+
+    fn is_bound(&self, id: &str) -> bool {
+        self.bound.contains(id) && !self.pending.contains(id)
     }
 }
 
@@ -2466,13 +2478,14 @@ fn freeze_lvalue(env: &mut FreezeEnv, lvalue: &Lvalue) -> NRes<Lvalue> {
         Lvalue::Literal(x) => Ok(Lvalue::Literal(x.clone())),
         Lvalue::IndexedIdent(s, ioses) => {
             if let Ident::Ident(id) = s {
-                if env.bound.contains(id) {
+                if env.is_bound(id) {
                     // fine
                 } else if env.warn {
                     eprintln!(
                         "\x1b[1;33mWARNING\x1b[0;33m: ident in lvalue not bound: {}\x1b[0m",
                         id
                     );
+                    env.pending.remove(id);
                     env.bound.insert(id.clone());
                 } else {
                     // frozen code can't write to an outside lvalue
@@ -2668,7 +2681,7 @@ pub fn freeze(env: &mut FreezeEnv, expr: &LocExpr) -> NRes<LocExpr> {
                     .collect::<NRes<Vec<Result<char, (LocExpr, MyFmtFlags)>>>>()?,
             )),
             Expr::Ident(s) => {
-                if env.bound.contains(s) {
+                if env.is_bound(s) {
                     Ok(Expr::Ident(s.clone()))
                 } else {
                     match Env::try_borrow_get_var(&env.env, s) {
@@ -2680,6 +2693,7 @@ pub fn freeze(env: &mut FreezeEnv, expr: &LocExpr) -> NRes<LocExpr> {
                                     s,
                                     FmtCodeLocRange(&expr.start, &expr.end)
                                 );
+                                env.pending.remove(s);
                                 env.bound.insert(s.clone());
                                 Ok(Expr::Ident(s.clone()))
                             } else {
@@ -2726,10 +2740,21 @@ pub fn freeze(env: &mut FreezeEnv, expr: &LocExpr) -> NRes<LocExpr> {
             Expr::Assign(every, pat, rhs) => {
                 // have to bind first so box_freeze_lvalue works
                 // also recursive functions work ig
-                env.bind(pat.collect_identifiers(true /* declared_only */));
+                let declared = pat.collect_identifiers(true /* declared_only */);
+                let fresh = declared
+                    .iter()
+                    .filter(|id| !env.is_bound(id))
+                    .cloned()
+                    .collect::<Vec<String>>();
+                env.bind(declared.clone());
 
                 let lvalue = box_freeze_lvalue(env, pat)?;
-                Ok(Expr::Assign(*every, lvalue, box_freeze(env, rhs)?))
+                env.pending.extend(fresh);
+                let rhs = box_freeze(env, rhs);
+                for id in &declared {
+                    env.pending.remove(id);
+                }
+                Ok(Expr::Assign(*every, lvalue, rhs?))
             }
             Expr::Annotation(s, t) => Ok(Expr::Annotation(
                 box_freeze(env, s)?,
@@ -2910,6 +2935,8 @@ pub fn freeze(env: &mut FreezeEnv, expr: &LocExpr) -> NRes<LocExpr> {
             }
             Expr::Lambda(params, body) => {
                 let mut env2 = env.clone();
+                // the lambda runs later, when pending declarations exist
+                env2.pending.clear();
                 // before the parameters are bound (see freeze_param)
                 let params2 = params
                     .iter()
